@@ -128,6 +128,33 @@ func (l *Link) InjectFrom(proto tcpip.NetworkProtocolNumber, remote, local tcpip
 	l.dispatcher.DeliverNetworkPacket(l, remote, local, proto, vv)
 }
 
+// InjectRecycled delivers pkt like Inject and, as soon as DeliverNetworkPacket has returned,
+// overwrites the delivered bytes: a sender that re-uses its buffer (an application writing through
+// the loopback interface with a by-reference payload, a link endpoint recycling its receive
+// buffer).  Only for packets whose handling must not retain the bytes beyond the call.
+func (l *Link) InjectRecycled(proto tcpip.NetworkProtocolNumber, pkt []byte, chunks ...int) {
+	var views []buffer.View
+	all := append([]byte(nil), pkt...)
+	rest := all
+	for _, c := range chunks {
+		if c > len(rest) {
+			c = len(rest)
+		}
+		views = append(views, buffer.View(rest[:c:c]))
+		rest = rest[c:]
+	}
+	if len(rest) > 0 || len(views) == 0 {
+		views = append(views, buffer.View(rest))
+	}
+	vv := buffer.NewVectorisedView(len(pkt), views)
+	defer func() {
+		for i := range all {
+			all[i] = 0xA5
+		}
+	}()
+	l.dispatcher.DeliverNetworkPacket(l, "", "", proto, vv)
+}
+
 const (
 	ProtoIPv4 = tcpip.NetworkProtocolNumber(0x0800)
 	ProtoIPv6 = tcpip.NetworkProtocolNumber(0x86dd)
